@@ -48,11 +48,29 @@ theorem dealOut_some {v : Verifier F G} {dl : Deal F G} (h : v.dealOut = some (s
   rcases ha : v.agg with _ | a
   · simp [ha] at h
   · simp only [ha, Option.some.injEq] at h
-    by_cases hc : (enoughApprovals a && a.certified) = true
+    by_cases hc : (enoughApprovals a && (v.approved && a.certified)) = true
     · simp only [hc, if_true] at h
       simp only [Bool.and_eq_true] at hc
-      exact ⟨a, rfl, h, hc.2⟩
+      exact ⟨a, rfl, h, hc.2.2⟩
     · simp [hc] at h
+
+/-- fix 5814a9f: `Deal()` hands out a deal only if the verifier itself approved it -/
+theorem dealOut_some_approved {v : Verifier F G} {dl : Deal F G} (h : v.dealOut = some (some dl)) :
+    v.approved = true := by
+  unfold Verifier.dealOut at h
+  rcases ha : v.agg with _ | a
+  · simp [ha] at h
+  · simp only [ha, Option.some.injEq] at h
+    by_cases hc : (enoughApprovals a && (v.approved && a.certified)) = true
+    · simp only [Bool.and_eq_true] at hc
+      exact hc.2.1
+    · simp [hc] at h
+
+/-- fix 5814a9f: a certified verifier approved its deal -/
+theorem dealCertified_approved {v : Verifier F G} (h : v.dealCertified = true) : v.approved = true := by
+  unfold Verifier.dealCertified at h
+  simp only [Bool.and_eq_true] at h
+  exact h.1
 
 /-- the fold of `DistKeyShare` over a list of slots -/
 theorem keyShareFold_spec (d : Gen F G) : ∀ (js : List Nat) (sh : F) (pub : Option (List G)) (sh' : F)
